@@ -1162,7 +1162,9 @@ const FIXED: &[(&str, &[&str], usize)] = &[
 
 pub fn run(report: &mut Report, replay: Option<&str>) {
     let mut model = Model::spawn();
-    let known = known_findings("C04");
+    // regions are excused for entries that are still "known"; fixed entries excuse nothing
+    let all_known = known_findings("C04");
+    let known: Vec<Value> = all_known.iter().filter(|k| k["status"] == "known").cloned().collect();
     report.rule = "marker programs: grammar-generated Lua/Luau programs (all statement kinds, calls, tables, functions, \
         if-expressions, compound assignments, optional type annotations) whose literals/globals/calls are unique markers, laid out \
         with line breaks in 30-70% of the token gaps plus comments, processed by the real darklua_core::process with retain_lines and \
@@ -1249,7 +1251,7 @@ pub fn run(report: &mut Report, replay: Option<&str>) {
     report.notes.push(format!("default rules: {}", defaults.join(", ")));
 
     // known findings first
-    for f in &known {
+    for f in &all_known {
         let id = f["id"].as_str().unwrap_or("?");
         let w = &f["witness"];
         if let Some(files) = w["files"].as_array() {
